@@ -243,6 +243,7 @@ impl GraphEngine {
             pending_label_additions: Vec::new(),
             pending_label_removals: Vec::new(),
             created_external_ids: std::collections::HashSet::new(),
+            pending_vectors: Vec::new(),
             memtable: MemTable::default(),
         }
     }
@@ -907,6 +908,7 @@ pub struct WriteTxn<'a> {
     pending_label_additions: Vec<(InternalNodeId, LabelId)>,
     pending_label_removals: Vec<(InternalNodeId, LabelId)>,
     created_external_ids: std::collections::HashSet<ExternalId>,
+    pending_vectors: Vec<(InternalNodeId, Vec<f32>)>,
     memtable: MemTable,
 }
 
@@ -1056,7 +1058,10 @@ impl<'a> WriteTxn<'a> {
 
     // T203: HNSW Support
     pub fn set_vector(&mut self, id: InternalNodeId, vector: Vec<f32>) -> Result<()> {
-        self.engine.insert_vector(id, vector)
+        // Buffered like every other write: the index is only touched by commit(), so a
+        // transaction that is dropped or rolled back leaves no vector behind.
+        self.pending_vectors.push((id, vector));
+        Ok(())
     }
 
     pub fn commit(self) -> Result<()> {
@@ -1361,6 +1366,10 @@ impl<'a> WriteTxn<'a> {
         }
 
         vpoint!("commit.after_idmap");
+        for (id, vector) in self.pending_vectors {
+            self.engine.insert_vector(id, vector)?;
+        }
+
         let has_label_mutations = has_new_nodes || has_label_additions || has_label_removals;
         if has_label_mutations {
             self.engine.update_published_node_labels();
